@@ -223,15 +223,16 @@ func init() {
 			{Rel: ".", Dir: "fiber", Entry: "VH_C12_roundtrip", Cases: tierCases([]int{0, 1, 2}, []int{0, 1, 2, 3}), Reach: []string{"roundtrip"}, MaxPaths: 100000},
 			{Rel: ".", Dir: "fiber", Entry: "VH_C12_hostile", Cases: tierCases([]int{1, 2, 3, 4}, []int{1, 2, 3, 4, 5, 6, 7}), Reach: []string{"malformed", "wellformed"}, MaxPaths: 200000},
 			{Rel: ".", Dir: "fiber", Entry: "VH_C12_exchange", Cases: tierCases([]int{1}, []int{1}), Reach: []string{"exchange"}, MaxPaths: 100000},
+			{Rel: ".", Dir: "fiber", Entry: "VH_C12_entry", Cases: tierCases([]int{0, 1, 2, 3, 4, 5, 6}, []int{0, 1, 2, 3, 4, 5, 6}), Reach: []string{"entry"}, MaxPaths: 1000},
 			{Rel: ".", Dir: "fiber", Entry: "VH_C12_mixed", Cases: tierCases([]int{0, 1, 2, 4, 5, 6}, []int{0, 1, 2, 3, 4, 5, 6, 7}), Reach: []string{"mixed"}, MaxPaths: 100000, ExtraPkgs: []string{"github.com/gofiber/fiber/v3/binder"}},
 		},
 		Bounds: map[string]string{
-			"quick":    "round trip of 0..2 messages with symbolic key/value (length 0..2, all bytes), level and old-input flag into a dirty reused target; hostile cookie: every byte string of length 1..4 (minus ';', space, '\"') with an allocation budget of 64*len+512 bytes; issue/present/expire/absent exchange with 1 message at the fasthttp API level; a redirect carrying one message (key 1 letter, value 0..2 letters) and the old input of one query field (name 1 letter, value 0..2 letters) in both call orders, the message key possibly equal to the field name",
+			"quick":    "round trip of 0..2 messages with symbolic key/value (length 0..2, all bytes), level and old-input flag into a dirty reused target; hostile cookie: every byte string of length 1..4 (minus ';', space, '\"') with an allocation budget of 64*len+512 bytes; issue/present/expire/absent exchange with 1 message at the fasthttp API level; the same exchange for one concrete message with the follow-up request parsed from wire bytes and served by the real request handler, for each of 7 methods; a redirect carrying one message (key 1 letter, value 0..2 letters) and the old input of one query field (name 1 letter, value 0..2 letters) in both call orders, the message key possibly equal to the field name",
 			"thorough": "up to 3 messages, hostile cookies up to 7 bytes (the exchange with 2 fully symbolic messages exceeds 800 000 paths and is outside)",
 		},
 		Assumptions: []string{
 			"the exchange harness hands the issued cookie value back through fasthttp's header API (no wire serialisation); wire-safety of the value is a separate assertion and a known finding (C12-K1)",
-			"flash parsing is invoked directly (RawHeaders is only filled by wire parsing)",
+			"in the roundtrip/hostile/exchange/mixed harnesses flash parsing is invoked directly (RawHeaders is only filled by wire parsing); VH_C12_entry parses the follow-up request from wire bytes (one concrete message, 7 methods) and serves it through App.Handler()",
 			"WithInput is exercised for query input only (map target through the type-inspection reflect bridge); form and multipart input outside",
 		},
 	}
@@ -383,12 +384,12 @@ func init() {
 	props["C18"] = PropSpec{
 		ID: "C18",
 		Runs: []HarnessRun{
-			{Rel: "client", Dir: "client", Entry: "VH_C18_jar", Cases: tierCases([]int{1, 2, 12, 22}, []int{1, 2, 12, 22, 32}), Reach: []string{"checked"}, MaxPaths: 400000},
+			{Rel: "client", Dir: "client", Entry: "VH_C18_jar", Cases: tierCases([]int{1, 2, 12, 22, 42}, []int{1, 2, 12, 22, 32, 42}), Reach: []string{"checked"}, MaxPaths: 400000},
 			{Rel: "client", Dir: "client", Entry: "VH_C18_assembly", Cases: seqCases(3), Reach: []string{"assembled"}, MaxPaths: 100000, Repeat: 60},
 			{Rel: "client", Dir: "client", Entry: "VH_C18_handoff", Cases: seqCases(2), Reach: []string{"B-done"}, MaxPaths: 300000, Repeat: 40},
 		},
 		Bounds: map[string]string{
-			"quick":    "cookie jar: histories of 1..2 operations (Set, or a response's Set-Cookie parsed for a request host/path) over 2 hosts x 2 names x paths {/, /a, /a/b, /ab} x {no expiry, expired, future expiry} with a symbolic value byte; after every step Get is checked for both hosts x 4 request paths",
+			"quick":    "cookie jar: histories of 1..2 operations (Set, or a response's Set-Cookie parsed for a request host/path) over 2 hosts x 2 names x paths {/, /a, /a/b, /ab} x {no expiry, expired, future expiry} with a symbolic value byte; after every step Get is checked for both hosts x 4 request paths; plus 2-operation histories of responses whose Set-Cookie is pathless or names \"/\", served for request path / or /a",
 			"thorough": "jar histories of 1-2 operations in all three modes (lookup after every operation, only at the end, shared URI object); 3-operation histories exceed 400 000 paths and are outside",
 		},
 		Assumptions: []string{
